@@ -111,6 +111,7 @@ class PathMgr:
         self.hint_alt: Dict[int, List[ClassInfo]] = {}
         self.merged_dicts: Dict[int, Any] = {}
         self.base_facts: Dict[int, Any] = {}
+        self.classobj_cands: List[Any] = []
         self.canon_map: Dict[int, Any] = {}
         self.lazy_branching = False
         self.model_cache: List[Any] = []
